@@ -248,8 +248,10 @@ def check_chain(case):
     except Exception as e:   # noqa
         raise Fail("constructing a %s value from a valid angle raised %s: %s" % (notation, type(e).__name__, e),
                    expected="accepted", observed=case, bucket="construct %s raises" % notation)
+    if notation in ("dec", "gon", "rad", "hp"):
+        v = S.as_kind(v, case.get("num", "float"))      # numbers also arrive as numpy float64 scalars / whole ints
     src_val, src_not = v, notation
-    dsf = _fden(notation, v)
+    dsf = _fden(notation, float(v) if notation in ("dec", "gon", "rad", "hp") else v)
     if dsf is None:
         raise HarnessError("generated source %r (%s) is not valid under the oracle's own rule" % (v, notation))
     worst = 0.0
@@ -301,8 +303,8 @@ def angle_fields(draw):
     return {"neg": neg, "d": d, "m": m, "s_nano": s_nano}
 
 
-chain_cases = st.builds(lambda f, src, chain: dict(f, src=src, chain=chain), angle_fields(), st.sampled_from(AR.NOTATIONS),
-                        st.lists(st.integers(0, 7), min_size=1, max_size=3))
+chain_cases = st.builds(lambda f, src, chain, num: dict(f, src=src, chain=chain, num=num), angle_fields(), st.sampled_from(AR.NOTATIONS),
+                        st.lists(st.integers(0, 7), min_size=1, max_size=3), S.num_kind)
 
 
 def check_real(case):
@@ -312,9 +314,11 @@ def check_real(case):
     notation = case["src"]
     v = {"dec": lambda: x, "gon": lambda: x * 10.0 / 9.0, "rad": lambda: math.radians(x), "deca": lambda: a.DECAngle(x),
          "gona": lambda: a.GONAngle(x * 10.0 / 9.0)}[notation]()
+    if notation in ("dec", "gon", "rad"):
+        v = S.as_kind(v, case.get("num", "float"))
     E = _edges()
     src_val, src_not = v, notation
-    dsf = _fden(notation, v)
+    dsf = _fden(notation, float(v) if notation in ("dec", "gon", "rad") else v)
     labels = []
     for k in case["chain"]:
         outs = E[notation]
@@ -330,7 +334,7 @@ real_cases = st.fixed_dictionaries({
                    st.sampled_from([0.0, -0.0, 720.0, -720.0, 29.9999999999999, -0.9999999999999999, 359.99999999999994,
                                     624.0499999999997, -624.0499999999997, 511.99999999999994, 512.0, 1e-12, -1e-12])),
     "src": st.sampled_from(["dec", "gon", "rad", "deca", "gona"]),
-    "chain": st.lists(st.integers(0, 7), min_size=1, max_size=3)})
+    "chain": st.lists(st.integers(0, 7), min_size=1, max_size=3), "num": S.num_kind})
 
 
 # ------------------------------------------------------------------------------------------------ all chains of length 3
